@@ -4,6 +4,7 @@ import MetapypeModel.Model.Validate
 import MetapypeModel.Model.Equal
 import MetapypeModel.Model.Forest
 import MetapypeModel.Model.Query
+import MetapypeModel.Model.NsHeap
 import MetapypeModel.Gen.Rules
 import MetapypeModel.Gen.Facts
 /-
@@ -95,6 +96,21 @@ def forestJson (n : Nat) (F : Forest) : Json :=
 def idsJson (l : List Tree) : Json := .arr (l.map (fun t => Json.str t.id)).toArray
 def optIdJson (o : Option Tree) : Json := match o with | some t => .str t.id | none => .null
 
+def getNsOp (j : Json) : Option NsOp :=
+  match j with
+  | .arr #[.str "attach", p, c] => some (.attach (getNat p) (getNat c))
+  | .arr #[.str "declare", n, .str p, .str u] => some (.declare (getNat n) p u)
+  | .arr #[.str "remove", n, .str p] => some (.remove (getNat n) p)
+  | .arr #[.str "set", n, d] => some (.setNsmap (getNat n) (getDict d))
+  | .arr #[.str "share", n, m] => some (.share (getNat n) (getNat m))
+  | _ => none
+
+def dictJson (d : Dict) : Json := .arr (d.map (fun kv => Json.arr #[.str kv.1, .str kv.2])).toArray
+
+def nsJson (n : Nat) (H : NsHeap) : Json :=
+  Json.mkObj [("maps", .arr ((List.range n).map (fun a => dictJson (H.nsmapOf a))).toArray),
+              ("refs", natsJson ((List.range n).map H.ns))]
+
 def handle (j : Json) : Json :=
   let T := Gen.tables
   let L := Lex.lexer
@@ -158,6 +174,14 @@ def handle (j : Json) : Json :=
                   ("find_descendant", optIdJson (findDescendant x t)), ("find_all_descendants", idsJson (findAllDescendants x t [])),
                   ("find_single_by_path", optIdJson (findSingleByPath path t)), ("find_all_by_path", idsJson (findAllByPath path t)),
                   ("child_index", match childIndex t x with | some k => (k : Json) | none => Json.null)]
+  | some "ns" =>
+      let n := getNat (fld j "n")
+      let H0 : NsHeap := { kids := fun _ => [], ns := fun a => a, cell := fun _ => [], next := n }
+      let ops := match fld j "ops" with | .arr a => a.toList.filterMap getNsOp | _ => []
+      let (_, outs) := ops.foldl (fun (acc : NsHeap × List Json) op =>
+        let H := nsStep (n + 2) acc.1 op
+        (H, acc.2 ++ [nsJson n H])) (H0, [])
+      .arr outs.toArray
   | some "isequal" =>
       Json.bool (isEqual (getTree (fld j "a")) (getTree (fld j "b")))
   | some "tables" =>
